@@ -203,6 +203,14 @@ Definition read_timesteps (dct : dict) (ls : file) : res (list value * file) :=
   do neg <- v_lt0 c;
   if neg then do z <- v_int c; Ok (read_chunks (sp "timestep") (Z.to_nat (- z)) ls)
   else Ok ([c], ls).
+(** a blank print_block is None; (repaired reader) a 5-character one goes through fix_blockname *)
+Definition pb_fix (d2 : dict) : dict :=
+  match dgetv d2 "print_block" with
+  | XStr s => if blank s then dset d2 "print_block" XNone
+              else if read_fixes_print_block && (length s =? 5)%nat then
+                match fix_blockname s with Ok n => dset d2 "print_block" (XStr n) | Raise _ => d2 end
+              else d2
+  | _ => d2 end.
 Definition read_param (keywords : list str) (d : t2d) (ls : file) : res (t2d * option str * file) :=
   let p := param d in
   let (l1, r1) := readline ls in
@@ -211,12 +219,7 @@ Definition read_param (keywords : list str) (d : t2d) (ls : file) : res (t2d * o
   do opts <- mapM digit_of (replace1 " "%char ["0"%char] (ljust 24 (rstrip ostr)));
   let (l2, r2) := readline r1 in
   let d2 := dict_update d1 (nm "param2") (pline T "param2" l2) in
-  let d2' := match dgetv d2 "print_block" with
-             | XStr s => if blank s then dset d2 "print_block" XNone
-                         else if read_fixes_print_block && (length s =? 5)%nat then
-                           match fix_blockname s with Ok n => dset d2 "print_block" (XStr n) | Raise _ => d2 end
-                         else d2
-             | _ => d2 end in
+  let d2' := pb_fix d2 in
   do tr <- read_timesteps d2' r2;
   let (l3, r4) := readline (snd tr) in
   let d3 := dict_update d2' (nm "param3") (pline T "param3" l3) in
